@@ -74,7 +74,7 @@ def local_rows(d0: int, S: int, idx: int) -> int:
     return min(per, d0 - idx * per)
 
 
-def generate(rng: random.Random, tier: str) -> dict:
+def generate(rng: random.Random, tier: str, allow_starve: bool = True) -> dict:
     config = c06.gen_world_config(rng)
     dtype = rng.choice(["float32", "float32", "float32", "float64", "bfloat16"])
     if dtype == "bfloat16":
@@ -144,7 +144,7 @@ def generate(rng: random.Random, tier: str) -> dict:
     n_events = rng.choice([1, 2, 3, 4, 6, 8] + ([12, 16] if tier == "thorough" else []))
     style = gen.gen_presence_style(rng, len(params))
     style["never"] = []
-    starving_run = rng.random() < 0.1
+    starving_run = rng.random() < 0.1 and allow_starve
     events = []
     prev = None
     prev_g = [None] * len(params)
